@@ -70,7 +70,9 @@ if [[ -n "${INPUT_OUTPUT_FILE:-}" ]]; then
     echo "Both output_dir and output_file were set; choose one." >&2
     exit 1
   fi
-  args+=("${INPUT_OUTPUT_FILE}")
+  # end the option list first: --mutators is variadic and would otherwise
+  # take the file name as one more mutator
+  args+=(-- "${INPUT_OUTPUT_FILE}")
 fi
 
 if [[ ${#args[@]} -eq 0 ]]; then
